@@ -133,7 +133,13 @@ def slice_index_space(ctx: Ctx, rule: str):
             if not is_slice_idx_expr(node.slice):
                 continue
             res = res or resolver(m.node, multi=True)
-            bases = [_u(b) for b in res(node.value)]
+            variants0 = res(node.value)
+            # a private helper method that PRODUCES the array (`cls._valid_tables_counts_with_missings(cube)`) is inlined,
+            # its conditional paths become variants
+            from ..symex import Expander, strip_ifexp_paths
+
+            variants0 = [leaf for v in variants0 for _gs, leaf in strip_ifexp_paths(Expander(ctx.repo, m.cls, stop=lambda mm: mm.kind in ("lazyproperty", "property"), self_name="cls" if m.kind == "classmethod" else "self").visit(__import__("copy").deepcopy(v)))]
+            bases = [_u(b) for b in variants0]
             where = f"{m.cls.module.path.split('cr/cube/')[-1]}::{m.cls.name}.{m.name} [{_u(node)[:60]}]"
             n += 1
             if any("all_elements" in b for b in bases):
@@ -143,7 +149,7 @@ def slice_index_space(ctx: Ctx, rule: str):
             elif any("counts_with_missings" in b or "raw_cube_array" in b for b in bases):
                 # every variant of the array must be restricted by a FANCY index of the valid-element offsets; a basic slice
                 # (`[:n]`, `[first:last + 1]`) of the raw axis keeps whatever missing element lies inside / ahead of the range
-                variants = res(node.value)
+                variants = variants0
                 ranged = [_u(x)[:90] for v in variants for x in _ast.walk(v) if isinstance(x, _ast.Subscript) and isinstance(x.slice, _ast.Slice)
                           and ("counts_with_missings" in _u(x.value) or "raw_cube_array" in _u(x.value)) and (x.slice.lower is not None or x.slice.upper is not None)]
                 fancy = [v for v in variants if any(isinstance(x, _ast.Subscript) and not isinstance(x.slice, _ast.Slice) and "valid_elements.element_idxs" in _u(x.slice) for x in _ast.walk(v))]
@@ -156,9 +162,11 @@ def slice_index_space(ctx: Ctx, rule: str):
                     ctx.held(rule, where, restricted[0][:110], "restricted to the valid table elements before the partition index is applied")
                 elif restricted:
                     ctx.undecided(rule, where, "the valid-element offsets are mentioned but not used as a fancy index", "restricted by a fancy index of the valid-element offsets")
-                else:
+                elif any(b.endswith(".counts_with_missings") or b.endswith(".raw_cube_array") for b in bases):
                     ctx.violated(rule, where, bases[:2], "an array restricted to the valid elements of the table dimension",
                                  "the array still carries the missing elements of the table dimension; slice_idx counts valid elements only, so table k is another table when a missing element precedes")
+                else:
+                    ctx.undecided(rule, where, f"array produced by {bases[:2]}", "an array restricted to the valid elements of the table dimension")
             elif all(b in VALID_SPACE_ARRAYS for b in bases):
                 ctx.held(rule, where, bases[0], "a Cube accessor (valid elements only) / the counts handed to the factory")
             else:
@@ -370,7 +378,12 @@ def dependency_footprints(ctx: Ctx, rule: str = "footprint"):
             if ctx.repo.lookup(coll.cls, name) is None:
                 ctx.undecided(rule, where, "measure not found in the collection", "")
                 continue
-            sem = lambda ls: {l for l in ls if l not in FOOTPRINT_PLUMBING and not l.startswith("FIELD:")}
+            def sem(ls):
+                keep = {l for l in ls if l not in FOOTPRINT_PLUMBING and not l.startswith("FIELD:")}
+                # a presence test `X is None` of an optional measure is a dependence on X like a read of its values (whether
+                # FLOW sees the values travel - through *args, a tuple - depends on the spelling of the call)
+                return {l[:-1] if l.endswith("?") else l for l in keep}
+
             got, exp = sem(measure_blocks_reads(ctx, coll, name)), sem(want)
             n += 1
             added, removed = sorted(got - exp), sorted(exp - got)
